@@ -39,6 +39,16 @@ def gen(rng, n, force=None):
         if klass.startswith("symmetric"):
             v = (v + v[::-1]) / 2
         eps = float(10 ** (rng.uniform(-5, -4.3) if force is None else rng.uniform(-5, -4.9)))      # forced: the tightest budget of the box
+    if n >= 4 and (force == "small-vs-eps" or (force is None and rng.random() < 0.08)):
+        # several coefficients that are small AGAINST THE BUDGET (0.05 .. 1 times eps, all of one sign so that they add up on
+        # the circle) next to ordinary ones: each is negligible, their sum is not
+        klass += "/small-vs-eps"
+        eps = float(10 ** rng.uniform(-4, -2))
+        f_ = float(rng.choice([0.24, 0.2, 0.1, 0.05, 0.45, 1.0]))
+        sg = float(rng.choice([-1, 1]))
+        idx = [int(i) for i in rng.choice(np.arange(1, n), size=min(n - 1, int(rng.integers(3, 7))), replace=False)]
+        for i in idx:
+            v[i] = sg * f_ * eps
     if n >= 4 and (force == "decaying" or (force is None and rng.random() < 0.2)):
         # structured, not random: coefficients decaying geometrically / like a Gaussian away from the centre (truncated
         # Fourier or Jacobi-Anger tails), outermost ones tiny against the centre, with a tight budget
@@ -265,8 +275,8 @@ def run(tier, seed):
                 one(ctx, A, [float(x) * fac for x in p], klass, eps, suc, box, vecs[int(rng.integers(0, len(vecs)))])
     # every CLASS of input in every run, whatever the seed (the plan above draws the classes at random)
     for n in ((2, 4, 6, 9) if tier == "quick" else (2, 3, 4, 5, 6, 8, 9, 12)):
-        for force in ("tiny-interior", "decaying", "zeros"):
-            if force == "decaying" and n < 4:
+        for force in ("tiny-interior", "decaying", "zeros", "small-vs-eps", "small-vs-eps"):
+            if force in ("decaying", "small-vs-eps") and n < 4:
                 continue
             p, klass, eps, suc, box = gen(rng, n, force)
             ctx.count("class-coverage-block:" + force)
